@@ -81,9 +81,9 @@ def split(d, p, start=None, end=None, count=None, ba=False):
     return pieces if count is None else pieces[:count]
 
 def replace(d, old, new, start=None, end=None, count=None, ba=False):
-    if count == 0: return d, 0
-    if not old: raise RefErr('ValueError')
+    if not old: raise RefErr('ValueError')          # the property: an empty pattern or an invalid range raises, whatever the count
     s, e = norm_range(len(d), start, end)
+    if count == 0: return d, 0
     pts = nonoverlapping(d, old, s, e, ba, count)
     out, last = [], 0
     for q in pts:
